@@ -4,8 +4,11 @@
    [repaired] (Model.v) = what /repo HEAD does: all five repairs are committed (88f69f7 mode bits, f4d379f
    current-manifest restore, b6afef3 ForceRetry keeps the interrupted upgrade's snapshot, ca3a3f9 Rollback refuses a
    journal at "started", 31f4cb6 ForceRetry must install every path the kept snapshot covers).  The correspondence check
-   compares /repo with [repaired] only.  [pre_31f4cb6], [pre_b6afef3], [pre_88f69f7] are historical and appear only in
-   the `_refuted` witnesses below.
+   compares /repo with [repaired] and — for one recorded finding — with the same model started from
+   [init_world_reusing] (swapArtifact reuses a stale <dir>/.<base>.new; repair proposed in
+   fixes/C18_swap_discards_stale_staging_file.patch; every theorem below is about worlds started from [init_world],
+   i.e. with that repair).  [pre_31f4cb6], [pre_b6afef3], [pre_88f69f7] are historical and appear only in the
+   `_refuted` witnesses below.
    Reachable state = [exec repaired (init_world c f) ops] for an arbitrary
    installed tree f (symlinks, directories, anything), version c and history ops (applies with any tarball,
    options incl. ForceRetry, fault set and crash label; rollbacks; operator edits; obstacle removal).
@@ -177,20 +180,38 @@ Definition tar_ex (to : ver) (prev : prevspec) : tarball :=
 Definition no_opts : opts := {| o_expect := None; o_force := false |}.
 Definition force : opts := {| o_expect := None; o_force := true |}.
 Definition no_faults : faults :=
-  {| f_fail := []; f_crash := None; f_ha := true; f_hr := true; f_ob := []; f_rob := [] |}.
+  {| f_fail := []; f_crash := None; f_ha := true; f_hr := true; f_ob := []; f_rob := []; f_st := []; f_rst := [] |}.
 Definition health_fails : faults :=
-  {| f_fail := []; f_crash := None; f_ha := false; f_hr := true; f_ob := []; f_rob := [] |}.
+  {| f_fail := []; f_crash := None; f_ha := false; f_hr := true; f_ob := []; f_rob := []; f_st := []; f_rst := [] |}.
 Definition dies_mid_swap : faults :=    (* swap of artifact #1 fails, process dies before the auto-rollback *)
-  {| f_fail := []; f_crash := Some 51; f_ha := true; f_hr := true; f_ob := [(1, false)]; f_rob := [] |}.
+  {| f_fail := []; f_crash := Some 51; f_ha := true; f_hr := true; f_ob := [(1, false)]; f_rob := []; f_st := []; f_rst := [] |}.
 Definition swap_and_rollback_fail : faults :=   (* swap of artifact #1 fails, the auto-rollback cannot stop the daemon *)
-  {| f_fail := [12]; f_crash := None; f_ha := true; f_hr := true; f_ob := [(1, false)]; f_rob := [] |}.
+  {| f_fail := [12]; f_crash := None; f_ha := true; f_hr := true; f_ob := [(1, false)]; f_rob := []; f_st := []; f_rst := [] |}.
 Definition dies_after_commit : faults :=
-  {| f_fail := []; f_crash := Some 35; f_ha := true; f_hr := true; f_ob := []; f_rob := [] |}.
+  {| f_fail := []; f_crash := Some 35; f_ha := true; f_hr := true; f_ob := []; f_rob := []; f_st := []; f_rst := [] |}.
 Definition dies_before_manifest_saved : faults :=
-  {| f_fail := [36]; f_crash := None; f_ha := true; f_hr := true; f_ob := []; f_rob := [] |}.
+  {| f_fail := [36]; f_crash := None; f_ha := true; f_hr := true; f_ob := []; f_rob := []; f_st := []; f_rst := [] |}.
 Definition interrupted_then_forced : list op :=
   [OpApply (tar_ex 2 PrevNone) no_opts swap_and_rollback_fail;    (* leaves artifact 0 new, artifact 1 old *)
    OpApply (tar_ex 2 PrevNone) force health_fails].               (* ForceRetry, health fails, auto-rollback "succeeds" *)
+
+(* /repo at 7b3d79c (recorded finding swap-reuses-stale-staging-file, repair proposed): a swap that was killed left
+   <dir>/.<base>.new with mode 04755 behind; the next upgrade installs artifact 1, whose manifest entry has no mode,
+   with 04755 instead of 0644 and reports success ([init_world_reusing] = the behaviour without the repair) *)
+Definition stale_setuid_at_1 : faults :=
+  {| f_fail := []; f_crash := None; f_ha := true; f_hr := true; f_ob := []; f_rob := []; f_st := [(1, 2541)]; f_rst := [] |}.
+Theorem C18_stale_staging_file_refuted :
+  exists w' m, step repaired (init_world_reusing 1 fs_ex) (OpApply (tar_ex 2 PrevNone) no_opts stale_setuid_at_1) = (w', (ROk, m)) /\
+               m = MonMixed /\ ofile_eqb (fs w' 1) (Some (Reg 21 2541)) = true.
+Proof. do 2 eexists. split; [vm_compute; reflexivity|]. split; [reflexivity|vm_compute; reflexivity]. Qed.
+Print Assumptions C18_stale_staging_file_refuted.
+
+(* with the repair the leftover is discarded: 0644 as documented *)
+Example C18_nonvacuous_stale_staging_file :
+  exists w' m, step repaired (reach 1 fs_ex []) (OpApply (tar_ex 2 PrevNone) no_opts stale_setuid_at_1) = (w', (ROk, m)) /\
+               m = MonOk /\ ofile_eqb (fs w' 1) (Some (Reg 21 420)) = true.
+Proof. do 2 eexists. split; [vm_compute; reflexivity|]. split; [reflexivity|vm_compute; reflexivity]. Qed.
+Print Assumptions C18_nonvacuous_stale_staging_file.
 
 (* historical, fixed in 31f4cb6: after the interrupted upgrade to version 2 replaced artifact 0,
    a ForceRetry with a version-5 tarball that installs only artifact 1 was admitted, completed and reported success;
@@ -199,7 +220,7 @@ Definition only_art1 : tarball :=
   {| t_to := 5; t_prev := PrevNone; t_sig_ok := true; t_members_ok := true; t_digest_ok := true; t_hook_ok := true;
      t_arts := [ {| a_path := 1; a_content := 31; a_mode := MEmpty; a_vpp := false |} ] |}.
 Definition start_fails_twice : faults :=   (* daemon start fails, the auto-rollback cannot stop the daemon *)
-  {| f_fail := [8; 12]; f_crash := None; f_ha := true; f_hr := true; f_ob := []; f_rob := [] |}.
+  {| f_fail := [8; 12]; f_crash := None; f_ha := true; f_hr := true; f_ob := []; f_rob := []; f_st := []; f_rst := [] |}.
 Theorem C18_success_leaves_no_residue_refuted :
   exists w1 w' m, exec pre_31f4cb6 (init_world 1 fs_ex) [OpApply (tar_ex 2 PrevNone) no_opts start_fails_twice] = w1 /\
     step pre_31f4cb6 w1 (OpApply only_art1 force no_faults) = (w', (ROk, m)) /\ m = MonMixed /\ cur w' = 5 /\
